@@ -23,7 +23,9 @@ Inductive stmt :=
 | SUseBuiltin (k : N)               (* 0 print(type(1)); 1 print(Vec); 2 print(type(print)); k >= 3: print(<use_name k>); *)
 | SFiber (d f : N)                  (* Fiber.new(|| Fiber.new(|| ... f<f>() ...).call()).call();   d nested fibers *)
 | STry (body : list stmt)           (* try { body } catch e { print(type(e)); print(message of e); } *)
-| SBlock (body : list stmt).        (* { body } *)
+| SBlock (body : list stmt)         (* { body } *)
+| SSetAttrFn (a g f : N)            (* <alias a>.f<g> = f<f>;   a function value leaves its module *)
+| SLamCall (body : list stmt).      (* { var l_ = || { body }; l_(); }   a closure created and called at run time *)
 
 Inductive top :=
 | TStmt (s : stmt)
@@ -191,6 +193,7 @@ Section Mech.
   Variable hit_checks_loading : bool.
   Variable builtins_guarded : bool.
   Variable loading_walks_chain : bool.
+  Variable closure_takes_active : bool.
 
   Definition mstep := step nat (list top) (prog_loader prog) (prog_compiler prog cm) builtin_names frames_max
                            hit_checks_loading builtins_guarded loading_walks_chain.
@@ -233,6 +236,16 @@ Section Mech.
     | [] => bind_s (do_step x (EDefineGlobal nm v)) (fun x' _ => RNormal [] x')
     | sc :: r => RNormal (((nm, v) :: sc) :: r) x
     end.
+
+  (* closure_impl: the `module` field of a closure created now.  The code: Vm.active_module.  Variant (false): the
+     module REGISTERED under the path of the running code's module (the same object unless that load failed and
+     the path was loaded again) *)
+  Definition closure_mod (x : xst) : nat :=
+    if closure_takes_active then active (ms x)
+    else match alookup (reg (ms x)) (m_path (getmod (ms x) (active (ms x)))) with
+         | Some id => id
+         | None => active (ms x)
+         end.
 
   Definition src_of_mod (x : xst) (id : nat) : nat :=
     match path_index (m_path (getmod (ms x) id)) with Some i => i | None => 0 end.
@@ -348,6 +361,21 @@ Section Mech.
           | RNormal _ x1 => RNormal env x1
           | r => r
           end
+        | SSetAttrFn a g f =>
+          resolve env x (alias_name a) (fun x1 w =>
+            match w with
+            | VMod id => get_global x1 (fn_name f) (fun x2 u =>
+                           bind_s (do_step x2 (ESetAttr id (fn_name g) u)) (fun x3 _ => RNormal env x3))
+            | _ => RIll "not a module"
+            end)
+        | SLamCall body =>
+          (* the closure is created by closure_impl and called at once: a frame of its module; the enclosing
+             locals are its upvalues *)
+          bind_s (do_step x (ECall (closure_mod x))) (fun x1 _ =>
+            match run_task fuel' (TkExec body ([] :: env)) x1 with
+            | RNormal _ x2 => bind_s (do_step x2 EReturn) (fun x3 _ => RNormal env x3)
+            | r => r
+            end)
         end
       | TkCall env w =>
         match w with
@@ -370,7 +398,7 @@ Section Mech.
           (* Fiber.new(|| ...).call(): the lambda is a closure of the active module; its frame is the first frame of
              a new fiber; when it returns the fiber is finished and the caller resumes *)
           get_global x "Fiber" (fun x1 _ =>
-          bind_s (do_step x1 (EFiberCall (active (ms x1)))) (fun x2 _ =>
+          bind_s (do_step x1 (EFiberCall (closure_mod x1))) (fun x2 _ =>
             match run_task fuel' (TkFiber k' f env) x2 with
             | RNormal _ x3 => bind_s (do_step x3 EReturn) (fun x4 _ => RNormal env x4)
             | r => r
@@ -386,7 +414,7 @@ Section Mech.
             | TDef v n => bind_s (do_step x (EDefineGlobal (var_name v) (VNum n))) (fun x1 _ => RNormal [] x1)
             | TFn f _ =>
               (* closure_impl: the closure remembers Vm.active_module *)
-              bind_s (do_step x (EDefineGlobal (fn_name f) (VFn (active (ms x)) (fn_key src f)))) (fun x1 _ => RNormal [] x1)
+              bind_s (do_step x (EDefineGlobal (fn_name f) (VFn (closure_mod x) (fn_key src f)))) (fun x1 _ => RNormal [] x1)
             end in
           match r with
           | RNormal _ x' => run_task fuel' (TkTops rest src) x'
@@ -625,6 +653,20 @@ Section SpecEval.
           | QNormal _ x1 => QNormal env x1
           | r => r
           end
+        | SSetAttrFn a g f =>
+          sresolve cur env x (alias_name a) (fun w =>
+            match w with
+            | SMod p => sget cur x (fn_name f) (fun u => QNormal env (sset p x (fn_name g) u))
+            | _ => QIll "not a module"
+            end)
+        | SLamCall body =>
+          (* a function of the module whose code this is (`cur`: a module or a retired instance), called at once *)
+          if Nat.eqb depth frames_max then raise_s x KIndex stack_overflow_msg
+          else
+            match srun_task fuel' cur (S depth) (SkExec body ([] :: env)) x with
+            | QNormal _ x1 => QNormal env x1
+            | r => r
+            end
         end
       | SkCall env w =>
         match w with
@@ -746,6 +788,8 @@ Fixpoint render_stmt (s : stmt) : string :=
   | SFiber d f => render_fiber (N.to_nat d) (fn_name f ++ "()") ++ ";"
   | STry body => "try { " ++ render_list body ++ "} " ++ catch_text
   | SBlock body => "{ " ++ render_list body ++ "}"
+  | SSetAttrFn a g f => alias_name a ++ "." ++ fn_name g ++ " = " ++ fn_name f ++ ";"
+  | SLamCall body => "{ var l_ = || { " ++ render_list body ++ "}; l_(); }"
   end.
 
 Fixpoint render_stmts (l : list stmt) : string :=
@@ -799,7 +843,7 @@ Fixpoint wf_stmt (nmods : nat) (s : stmt) : bool :=
     match l with [] => true | a :: r => wf_stmt nmods a && wf_list r end in
   match s with
   | SImport p a => negb (N.eqb p 0) && Nat.ltb (N.to_nat p) 5 && N.ltb a 100
-  | STry body | SBlock body => wf_list body && negb (dup_alias [] body)
+  | STry body | SBlock body | SLamCall body => wf_list body && negb (dup_alias [] body)
   | SUseBuiltin k => N.ltb k 33
   | SFiber d _ => N.ltb d 8
   | _ => true
@@ -833,6 +877,7 @@ Definition wf_prog (prog : program) : bool :=
 (* ================================================================================================ *)
 (* wire format: one ';'-group per module: kind (0 ok, 1 missing, 2+k bad source k) then the statements
      1 t | 3 x | 4 x n | 5 p a | 7 a x | 8 a x n | 10 f | 11 a f | 12 | 15 k | 16 d f | 13 <stmts> 0 | 14 <stmts> 0
+     17 a g f | 18 <stmts> 0 (closure created and called)
      20 x n (var) | 21 f <stmts> 0 (fn) *)
 Fixpoint parse_stmts (fuel : nat) (l : list N) : list stmt * list N :=
   match fuel with
@@ -852,6 +897,10 @@ Fixpoint parse_stmts (fuel : nat) (l : list N) : list stmt * list N :=
     | 12%N :: r => let '(ss, r') := parse_stmts fuel' r in (SThrow :: ss, r')
     | 15%N :: k :: r => let '(ss, r') := parse_stmts fuel' r in (SUseBuiltin k :: ss, r')
     | 16%N :: d :: f :: r => let '(ss, r') := parse_stmts fuel' r in (SFiber d f :: ss, r')
+    | 17%N :: a :: g :: f :: r => let '(ss, r') := parse_stmts fuel' r in (SSetAttrFn a g f :: ss, r')
+    | 18%N :: r =>
+      let '(body, r1) := parse_stmts fuel' r in
+      let '(ss, r2) := parse_stmts fuel' r1 in (SLamCall body :: ss, r2)
     | 13%N :: r =>
       let '(body, r1) := parse_stmts fuel' r in
       let '(ss, r2) := parse_stmts fuel' r1 in (STry body :: ss, r2)
@@ -875,6 +924,8 @@ Definition parse_one (fuel' : nat) (l : list N) : option (stmt * list N) :=
     | 12%N :: r => Some (SThrow, r)
     | 15%N :: k :: r => Some (SUseBuiltin k, r)
     | 16%N :: d :: f :: r => Some (SFiber d f, r)
+    | 17%N :: a :: g :: f :: r => Some (SSetAttrFn a g f, r)
+    | 18%N :: r => let '(body, r1) := parse_stmts fuel' r in Some (SLamCall body, r1)
     | 13%N :: r => let '(body, r1) := parse_stmts fuel' r in Some (STry body, r1)
     | 14%N :: r => let '(body, r1) := parse_stmts fuel' r in Some (SBlock body, r1)
     | _ => None
@@ -911,10 +962,11 @@ Definition default_fuel : nat := 3000.
 
 (* one case of the correspondence check:  mech @ spec @ rendered sources *)
 Definition run_case (cm : list (list (list string))) (builtin_names core_names : list name) (frames_max : N)
-           (hit_checks_loading builtins_guarded loading_walks_chain : bool) (w : string) : string :=
+           (hit_checks_loading builtins_guarded loading_walks_chain closure_takes_active : bool) (w : string) : string :=
   let prog := parse_prog w in
   if wf_prog prog then
-    eval_mech prog cm builtin_names (N.to_nat frames_max) hit_checks_loading builtins_guarded loading_walks_chain default_fuel core_names
+    eval_mech prog cm builtin_names (N.to_nat frames_max) hit_checks_loading builtins_guarded loading_walks_chain closure_takes_active
+              default_fuel core_names
     ++ "@" ++ eval_spec prog (builtin_names ++ core_names) (N.to_nat frames_max) default_fuel
     ++ "@" ++ render prog
   else "ILLFORMED".
